@@ -3,7 +3,9 @@
 
 #include <algorithm>
 #include <cassert>
+#include <cerrno>
 #include <climits>
+#include <cstdio>
 #include <cstring>
 #include <functional>
 #include <iostream>
@@ -195,13 +197,25 @@ static void inform_hunks_failed(std::ostream& out, const char* reason, const std
     out << ' ' << reason;
 }
 
+// A file of our own making (the rejects, the empty backup of a file which did not exist) takes the place of whatever
+// has its name. A symbolic link is not written through to some file which has nothing to do with the patch.
+static void remove_symbolic_link(const std::string& path)
+{
+    if (filesystem::is_symlink(path) && std::remove(path.c_str()) != 0)
+        throw std::system_error(errno, std::generic_category(), "Unable to remove symbolic link " + path);
+}
+
 // The rejects of a file which already got some from an earlier patch of the input (or those of every file
 // if they all are to go to the one file given) are added to what is there, only the first ones replace it.
 class RejectFiles {
 public:
     std::ios_base::openmode open_mode_for(const std::string& reject_file)
     {
-        return m_written_reject_files.emplace(reject_file).second ? std::ios::trunc : std::ios::app;
+        if (!m_written_reject_files.emplace(reject_file).second)
+            return std::ios::app;
+
+        remove_symbolic_link(reject_file);
+        return std::ios::trunc;
     }
 
 private:
@@ -364,8 +378,10 @@ public:
             // For a missing output file just create an empty backup file instead.
             if (filesystem::exists(file_path))
                 filesystem::rename(file_path, backup_file);
-            else
+            else {
+                remove_symbolic_link(backup_file);
                 File::touch(backup_file);
+            }
         }
     }
 
